@@ -136,7 +136,8 @@ theorem vmStackUnmarshal_np (numField len : Nat) : (vmStackUnmarshal numField le
     rw [foldIndex_np len _ (by intro i hi; simp at hi; omega)]
     rfl
 
-theorem accountFromProof_np (nRoots nKeys hit : Nat) : (accountFromProof nRoots nKeys nKeys hit).isPanic = false := by
+theorem accountFromProof_np (nRoots nKeys nValues hit : Nat) (hkv : nKeys ≤ nValues) :
+    (accountFromProof nRoots nKeys nValues hit).isPanic = false := by
   unfold accountFromProof
   split
   · rfl
@@ -144,7 +145,7 @@ theorem accountFromProof_np (nRoots nKeys hit : Nat) : (accountFromProof nRoots 
     rw [index_ok (by omega)]
     simp only
     split
-    · rename_i hh; rw [index_ok hh]; rfl
+    · rename_i hh; rw [index_ok (by omega)]; rfl
     · rfl
 
 theorem getTransactions_loop_np (nIds : Nat) (cellOk : Nat → Bool) :
